@@ -80,7 +80,7 @@ def chain_spec(draw):
 def strategy(draw, tier="quick"):
     if draw(st.integers(0, 2)) == 0:
         return draw(chain_spec())
-    spec = draw(gen_spec(allow_rels=True, allow_rdep=True, allow_nm=True, sched="eager", max_space=1, nvals=1, min_trans=2, max_trans=5))
+    spec = draw(gen_spec(allow_rels=True, allow_rdep=True, rdep_bias=True, allow_nm=True, sched="eager", max_space=1, nvals=1, min_trans=2, max_trans=5))
     spec["vals"] = []
     spec["gen"] = "grammar"
     return spec
